@@ -6,7 +6,7 @@
 //! the message `token_block_to_proto_block` writes for the block that was read.
 use crate::common::*;
 use biscuit_auth::builder::Algorithm;
-use biscuit_auth::format::convert::{proto_block_to_token_block, token_block_to_proto_block};
+use biscuit_auth::format::convert::{proto_block_to_token_block, proto_snapshot_block_to_token_block, token_block_to_proto_block, token_block_to_proto_snapshot_block};
 use biscuit_auth::format::schema;
 use biscuit_auth::{KeyPair, PublicKey};
 use rand::rngs::StdRng;
@@ -229,7 +229,7 @@ fn err_class(e: &biscuit_auth::error::Format) -> String {
         Format::SymbolTableOverlap => "symbolOverlap".into(),
         Format::InvalidKeySize(_) | Format::InvalidKey(_) => "badKey".into(),
         Format::DeserializationError(m) => {
-            let table: [(&str, &str); 21] = [
+            let table: [(&str, &str); 22] = [
                 ("ID content enum is empty", "emptyId"),
                 ("sets cannot contain variables", "setVariable"),
                 ("sets cannot contain other sets", "setSet"),
@@ -242,6 +242,7 @@ fn err_class(e: &biscuit_auth::error::Format) -> String {
                 ("ffi name set on a regular binary operation", "binaryFfiExtra"),
                 ("invalid check kind", "checkKind"),
                 ("check kinds are only supported on datalog v3.1+", "checkKindVersion"),
+                ("v3 blocks must not contain a check kind", "checkKindVersion"),
                 ("reject if is only supported in datalog v3.3+", "rejectVersion"),
                 ("third-party blocks are only supported", "thirdPartyVersion"),
                 ("deserialization error: scopes are only supported in datalog v3.1+", "scopesVersion"),
@@ -266,7 +267,41 @@ fn err_class(e: &biscuit_auth::error::Format) -> String {
     }
 }
 
+fn bad_key(k: &Value) -> schema::PublicKey {
+    if k == "alg" {
+        schema::PublicKey { algorithm: 7, key: vec![1; 32] }
+    } else {
+        schema::PublicKey { algorithm: 0, key: vec![1; 5] }
+    }
+}
+
+fn run_snapshot_case(case: &Value) -> Value {
+    let pb = block_from(&case["block"]);
+    let external_key = match &case["ext"] {
+        Value::Null => None,
+        v => Some(v.as_u64().map(|id| key_of(id).to_proto()).unwrap_or_else(|| bad_key(v))),
+    };
+    let sb = schema::SnapshotBlock { context: pb.context, version: pb.version, facts_v2: pb.facts_v2, rules_v2: pb.rules_v2, checks_v2: pb.checks_v2, scope: pb.scope, external_key };
+    let r = std::panic::catch_unwind(|| match proto_snapshot_block_to_token_block(&sb) {
+        Err(e) => json!({"err": err_class(&e)}),
+        Ok(b) => {
+            let back = token_block_to_proto_snapshot_block(&b);
+            let ext = back.external_key.as_ref().map(|k| PublicKey::from_proto(k).map(|k| key_id(&k)).unwrap_or(json!("?")));
+            let as_block = schema::Block { symbols: vec![], context: back.context, version: back.version, facts_v2: back.facts_v2, rules_v2: back.rules_v2,
+                checks_v2: back.checks_v2, scope: back.scope, public_keys: vec![] };
+            json!({"ok": block_to(&as_block), "ext": ext, "symbols_in_block": b.symbols.strings().len(), "keys_in_block": b.public_keys.current_offset()})
+        }
+    });
+    match r {
+        Ok(v) => v,
+        Err(e) => json!({"panic": panic_msg(e)}),
+    }
+}
+
 pub fn run_case(case: &Value) -> Value {
+    if case["kind"] == "snapshot" {
+        return run_snapshot_case(case);
+    }
     let pb = block_from(&case["block"]);
     let ext = case["ext"].as_u64().map(key_of);
     let r = std::panic::catch_unwind(|| match proto_block_to_token_block(&pb, ext) {
@@ -521,7 +556,12 @@ pub fn gen_case(rng: &mut StdRng, i: usize) -> Value {
         Value::Null
     };
     let context = if g.rng.gen_range(0..4) == 0 { json!("ctx") } else { Value::Null };
-    json!({"op": "convert", "gen": if faulty { "faulty" } else if loose { "loose" } else { "valid" },
+    // every fourth case goes through the reader of authorizer snapshots: the same message without its tables, the
+    // external key inside it (sometimes one that `from_proto` refuses)
+    let snapshot = i % 4 == 3;
+    let ext = if snapshot && faulty && g.rng.gen_range(0..10) == 0 { json!(*pick(g.rng, &["alg", "len"])) } else { ext };
+    let ext = if snapshot && ext.is_null() && g.rng.gen_range(0..3) == 0 { json!(g.rng.gen_range(0..NKEYS)) } else { ext };
+    json!({"op": "convert", "kind": if snapshot { "snapshot" } else { "block" }, "gen": if faulty { "faulty" } else if loose { "loose" } else { "valid" },
         "block": {"symbols": symbols, "context": context, "version": v, "facts": facts, "rules": rules, "checks": checks, "sc": sc, "keys": keys},
         "ext": ext})
 }
@@ -538,7 +578,7 @@ pub fn run(opts: &Opts) {
         } else {
             out["err"].as_str().unwrap_or("?").to_string()
         };
-        *stats.entry(format!("{}/{}", case["gen"].as_str().unwrap_or("replay"), k)).or_insert(0) += 1;
+        *stats.entry(format!("{}/{}/{}", case["kind"].as_str().unwrap_or("block"), case["gen"].as_str().unwrap_or("replay"), k)).or_insert(0) += 1;
         sink.put(&case, &out);
     };
     if let Some(path) = &opts.replay {
